@@ -359,6 +359,9 @@ def check_prelude_tables():
     import unicodedata
     from harness import core
     text = open(os.path.join(core.VERIF, 'lean', 'BufrModel', 'Gen', 'PyPrelude.lean')).read()
+    # the table `Py.intOfStr` of the C15 tie uses (block "additions for stateful classes"; another block of the file has
+    # a table of its own under another namespace)
+    text = text[text.index('additions for stateful classes'):]
     m = re.search(r'def decimalZeros : List Nat :=\s*\[([^\]]*)\]', text)
     table = [int(x, 16) for x in re.findall(r'0x[0-9a-fA-F]+', m.group(1))]
     dec = [c for c in range(0x110000) if unicodedata.decimal(chr(c), None) is not None]
